@@ -68,6 +68,9 @@ def cases(tier):
         out.append({"kind": "ufunc", "name": "ufunc/%s" % uf.__name__, "ufunc": uf.__name__, "nin": uf.nin})
     for n in METHODS:
         out.append({"kind": "spell", "name": "func/%s" % n, "which": n})
+    # 0-d TENSOR exponents (symbolic, and concretely 1.0 / 2.0 / 3.0): every spelling must keep the exponent in the graph
+    for ev in ("sym", "1.0", "2.0", "3.0"):
+        out.append({"kind": "powexp", "name": "pow-tensor-exponent/%s" % ev, "exp": ev})
     out.append({"kind": "nodiff", "name": "nodiff"})
     out.append({"kind": "constonly", "name": "const-only"})
     return out
@@ -90,16 +93,17 @@ def _spellings(spec):
 
 def run_spellings(spec, tier, mg):
     res = common.new_result()
-    engine = eng_mod.Engine(skip_ties=True)
+    engine = eng_mod.Engine(skip_ties=False)  # spellings are compared with each other: they must agree on tie paths too
     engine.reset_fn = lib.reset_state
-    sps = _spellings(spec)
-    name = spec.get("ufunc") or spec["which"]
+    powexp = spec["kind"] == "powexp"
+    sps = POW_SPELLINGS if powexp else _spellings(spec)
+    name = "power" if powexp else (spec.get("ufunc") or spec["which"])
     groups = {}
 
     def body():
         results = []
         for sp in sps:
-            small = name in ("maximum", "minimum", "clip")
+            small = name in ("maximum", "minimum", "clip", "absolute")
             ax = symarr("x", (1, 3) if small else (2, 3))
             ay = symarr("y", (3,))
             if name in POSITIVE_DOMAIN and not results:
@@ -111,6 +115,9 @@ def run_spellings(spec, tier, mg):
                     for j in range(i):
                         engine.assume(tm.ne(es[i], es[j]))
             x, y = mg.Tensor(ax), mg.Tensor(ay)
+            if powexp:
+                # the second operand is a 0-d non-constant tensor
+                y = mg.Tensor(symarr("e", ())) if spec["exp"] == "sym" else mg.Tensor(np.array(Sym(float(spec["exp"])), dtype=object))
             O = symarr("O", (2, 3))
             O = symarr("O", ax.shape)
             env = {"mg": mg, "np": np, "x": x, "y": y, "M": np.array([[True, False, True], [False, True, True]])[: ax.shape[0]],
@@ -148,9 +155,6 @@ def run_spellings(spec, tier, mg):
                     continue
                 res["status"] = common.INCONCLUSIVE
                 res["notes"].append("%s: %s" % (type(p.exc).__name__, str(p.exc)[:200]))
-                continue
-            if p.boundary:
-                res["boundary_paths"] += 1
                 continue
             rs = p.out
             # group by mask usage: where=/out= spellings form their own family (masked-out positions keep O)
@@ -192,7 +196,7 @@ def run_spellings(spec, tier, mg):
         res["notes"].append(str(e))
     findings = sorted(set(f for f in findings if f))
     if findings:
-        rp = _replay(spec, sps, name)
+        rp = _replay(spec, sps, name, ([1.0, 2.0, 3.0, 1.5] if spec.get("exp") == "sym" else [float(spec["exp"])]) if powexp else None)
         if rp:
             res["status"] = common.VIOLATION
             res["violations"].append({"signature": "spelling:%s:%s" % (name, findings[0][:40]), "replay": rp, "summary": "; ".join(findings[:3])})
@@ -204,18 +208,20 @@ def run_spellings(spec, tier, mg):
     return res
 
 
-def _replay(spec, sps, name):
+def _replay(spec, sps, name, exps=None):
     src = '''import sys
 import numpy as np
 import mygrad as mg
 np.seterr(all="ignore")
 SPS = %r
+EXPS = %r  # 0-d tensor exponents (pow-tensor-exponent cases) or None
 rng = np.random.RandomState(4)
 X, Y, O, G = rng.rand(2, 3) + 0.6, rng.rand(3) + 0.6, rng.rand(2, 3), None
 M = np.array([[True, False, True], [False, True, True]])
 res = []
-for sp in SPS:
+for sp, ev in [(sp, ev) for ev in (EXPS or [None]) for sp in SPS]:
     x, y = mg.Tensor(X), mg.Tensor(Y)
+    if ev is not None: y = mg.Tensor(np.array(ev))
     env = {"mg": mg, "np": np, "x": x, "y": y, "M": M, "O_t": lambda: mg.Tensor(O.copy())}
     s = sp.format(a="x", b="y")
     try:
@@ -227,12 +233,12 @@ for sp in SPS:
         g = np.random.RandomState(9).rand(*r.shape) + 0.5
         d = r.data.copy(); c = r.constant
         r.backward(g)
-        res.append((sp, "ok", d, c, None if x.grad is None else x.grad.copy(), None if y.grad is None else y.grad.copy(), r.dtype))
+        res.append((sp, "ok", d, c, None if x.grad is None else x.grad.copy(), None if y.grad is None else y.grad.copy(), r.dtype, ev))
     except Exception as e:
-        res.append((sp, "raise", type(e).__name__, str(e)[:150]))
+        res.append((sp, "raise", type(e).__name__, str(e)[:150], None, None, None, ev))
 bad = []
 fams = {}
-for r in res: fams.setdefault(("where" in r[0], "1.5" in r[0], "2.0" in r[0] and "**" in r[0]), []).append(r)
+for r in res: fams.setdefault(("where" in r[0], "1.5" in r[0], "2.0" in r[0] and "**" in r[0], r[7]), []).append(r)
 for fam in fams.values():
     ref = next((r for r in fam if r[1] == "ok"), None)
     for r in fam:
@@ -245,7 +251,7 @@ for fam in fams.values():
             if (a is None) != (b is None) or (a is not None and not np.allclose(a, b, equal_nan=True)): bad.append((r[0], ref[0], "gradient"))
 print(bad)
 print('REPRODUCED' if bad else 'NOT-REPRODUCED'); sys.exit(1 if bad else 0)
-''' % (sps,)
+''' % (sps, exps)
     path = common.write_replay(PROP, gradcase._safe(spec["name"]), src)
     ok, out = common.run_replay(path)
     return path if ok else None
@@ -357,8 +363,14 @@ def run_constonly(spec, tier, mg):
     return res
 
 
+POW_SPELLINGS = ["mg.power({a}, {b})", "np.power({a}, {b})", "{a} ** {b}", "{b}.__rpow__({a})", "r_ = +{a}; r_ **= {b}; r = r_",
+                 "r_ = +{a}; mg.power({a}, {b}, out=r_); r = r_"]
+
+
 def run_case(spec, tier):
     mg = common._WORKER["mg"]
+    if spec["kind"] == "powexp":
+        return run_spellings(spec, tier, mg)
     if spec["kind"] in ("ufunc", "spell"):
         return run_spellings(spec, tier, mg)
     if spec["kind"] == "nodiff":
